@@ -51,6 +51,18 @@ reader:
 	for {
 		typed, _, err := r.ReadTypedMsg()
 		if err != nil {
+			// NOTE: a message exceeding the maximum message size aborts the
+			// copy-in. Its body is discarded, as it is outside copy-in mode,
+			// so that the messages following it are read from their own first
+			// byte. The error is reported once the statement function returns it.
+			exceeded, has := buffer.UnwrapMessageSizeExceeded(err)
+			if has {
+				serr := r.Slurp(exceeded.Size)
+				if serr != nil {
+					return serr
+				}
+			}
+
 			return err
 		}
 
